@@ -67,9 +67,20 @@ func setFile(sc *Scope, f *Mod) {
 	}
 }
 
+// NestedOnlyIncludes counts the includes that SplitOpt left to a submodule (for the evidence).
+var NestedOnlyIncludes int
+
 // Split moves a random, dependency-closed part of m's top-level definitions into k submodules.
 // Submodule i includes submodules 1..i-1. Returns the new submodules.
-func Split(rng *rand.Rand, m *Mod, k int) []*Mod {
+func Split(rng *rand.Rand, m *Mod, k int) []*Mod { return SplitOpt(rng, m, k, false) }
+
+// SplitOpt is Split with one more freedom: with nestedOnly (for modules that nobody imports)
+// and a partition of the second kind, the module leaves out the include of a submodule that
+// another submodule includes, when nothing that stays in the module refers to its definitions
+// (nested includes as YANG 1.0 has them). Its data nodes reach the module through the
+// submodule that includes it.
+func SplitOpt(rng *rand.Rand, m *Mod, k int, nestedOnly bool) []*Mod {
+	needs0 := map[int]bool{} // parts that definitions staying in the module refer to
 	r := &Resolver{}
 	part := map[interface{}]int{}
 	needs := map[int]map[int]bool{} // part -> parts whose definitions it references
@@ -99,6 +110,11 @@ func Split(rng *rand.Rand, m *Mod, k int) []*Mod {
 		}
 		if zero || rng.Intn(3) == 0 {
 			part[def] = 0
+			for d := range refs {
+				if p := part[d]; d != def && p > 0 {
+					needs0[p] = true
+				}
+			}
 			return
 		}
 		if lo == 0 {
@@ -159,6 +175,16 @@ func Split(rng *rand.Rand, m *Mod, k int) []*Mod {
 		key := it
 		assign(key, refs)
 		itemPart[i] = part[key]
+	}
+	// the augments stay in the module: what their bodies refer to must be visible there
+	for _, a := range m.Augments {
+		refs := map[interface{}]bool{}
+		collectRefs(r, m, a.Body, refs)
+		for d := range refs {
+			if p := part[d]; p > 0 {
+				needs0[p] = true
+			}
+		}
 	}
 	subs := make([]*Mod, k+1)
 	for i := 1; i <= k; i++ {
@@ -240,7 +266,19 @@ func Split(rng *rand.Rand, m *Mod, k int) []*Mod {
 	}
 	var out []*Mod
 	for i := 1; i <= k; i++ {
-		m.Includes = append(m.Includes, subs[i])
+		nested := false
+		for j := i + 1; j <= k; j++ {
+			for _, in := range subs[j].Includes {
+				if in == subs[i] {
+					nested = true
+				}
+			}
+		}
+		if nestedOnly && !free && nested && !needs0[i] && rng.Intn(2) == 0 {
+			NestedOnlyIncludes++
+		} else {
+			m.Includes = append(m.Includes, subs[i])
+		}
 		out = append(out, subs[i])
 	}
 	rng.Shuffle(len(m.Includes), func(a, b int) { m.Includes[a], m.Includes[b] = m.Includes[b], m.Includes[a] })
